@@ -157,6 +157,37 @@ def shard(args):
                 F.check("C17", f"{tag}", got == exp, dict(got=got, expected=exp))
             except Exception as e:
                 F.check("C17", f"defined/{tag}", False, f"{type(e).__name__}: {str(e)[:150]}")
+        # general form: for every axis / keepdims / mask_identity and for deeper and option-typed layouts, the Cartesian components of
+        # ak.sum(vectors) are ak.sum of the arrays of the elements' Cartesian components (ak.sum on plain numbers is the trusted library)
+        deep = [[[AR.one(system, rng)], [AR.one(system, rng), AR.one(system, rng)]], [], [[], [AR.one(system, rng)]]]
+        optrec = [[AR.one(system, rng), None], [], [None, AR.one(system, rng), AR.one(system, rng)]]
+        for lname, st, axes in (("ak-jagged-with-empty-and-missing", struct, (0, 1, -1)), ("ak-nested-3", deep, (1, 2, -1, -2)), ("ak-option-records", optrec, (1, -1))):
+            try:
+                arr = vector.Array(AR.struct_map(st, lambda e: {key(n): e[n] for n in AR.names_of(system)}))
+                refc = cart_of(st, system, mom)
+                def pick(x, j):
+                    return None if x is None else (x[j] if isinstance(x, tuple) else [pick(y, j) for y in x])
+                comps = [ak.Array(pick(refc, j)) for j in range(d)]
+            except Exception as e:
+                F.check("C17", f"defined/build{tag0}|{lname}]", False, f"{type(e).__name__}: {str(e)[:150]}")
+                continue
+            for axis in axes:
+                for keepdims in (False, True):
+                    for mask_identity in (False, True):
+                        tag = f"ak.sum(axis={axis},keepdims={keepdims},mask_identity={mask_identity}){tag0}|{lname}]"
+                        try:
+                            with np.errstate(all="ignore"):
+                                exp = [ak.to_list(ak.sum(c, axis=axis, keepdims=keepdims, mask_identity=mask_identity)) for c in comps]
+                        except Exception:
+                            continue      # the reduction itself is not defined for this layout / axis
+                        try:
+                            with np.errstate(all="ignore"):
+                                r = ak.sum(arr, axis=axis, keepdims=keepdims, mask_identity=mask_identity)
+                            for j, n in enumerate(names):
+                                F.check("C17", f"cartesian-sum/{n}/{tag}", AR.close(ak.to_list(getattr(r, n)), exp[j]), dict(got=str(ak.to_list(getattr(r, n)))[:120], expected=str(exp[j])[:120]))
+                            F.check("C17", f"flavor-kept/{tag}", isinstance(r, vector.Momentum) == mom, str(ak.type(r))[:80])
+                        except Exception as e:
+                            F.check("C17", f"defined/{tag}", False, f"{type(e).__name__}: {str(e)[:150]}")
         # count_nonzero on vectors with a single non-zero Cartesian component (and the zero vector), where the system can hold them
         pats = one_hot_patterns(system)
         objs = [AR.obj_of(system, mom, e) for e in pats]
